@@ -241,6 +241,10 @@ def run(F, run, tier):
     for name in M.BDF_IMPLS:
         c03.check_bdf(F, run, name)
     check_bdf_estimate(F, run)
+    # start-up points and the clipped final step are produced by the RK4 helpers without an estimator of their own: their local accuracy
+    # rests on the helper being the classical fourth-order method (shared with C03 R3.2)
+    c03.check_rk4_startup(F, run, "adams", "ivp::adams::AdamsSolver", M.ADAMS_IMPLS["AdamsCoefficients5"][0], 5)
+    c03.check_rk4_startup(F, run, "bdf", "ivp::bdf::BDFSolver", M.BDF_IMPLS["BDF6Coefficients"][0], 7)
     run.assumptions += ["the local error *bound* is numerical and is not decided; only the mechanism is",
                         "the clipped final RK4 step (one site per multistep solver) is taken without an estimator: named exception"]
     expl = ("Every write to the solution in the three adaptive steppers is shown to lie on the true edge of the accept test (estimate defined "
